@@ -182,3 +182,24 @@ Example C08_float_model_example :
                       [1e16; 2; 1e16; nan; 1e16; 0; 2; 1]%float) = true /\
   nth_error [(0%Z, 1e16%float, true); (0%Z, 1%float, true)] 1 = Some (0%Z, 1%float, true).
 Proof. vm_compute. repeat split. Qed.
+
+(* skip_na = False for cummin / cummax: a null that is not skipped makes the running extreme null from there on - in the first
+   position of a group as well as later, for NaN as well as for the in-band NaT of timestamps / timedeltas (zops true) - and on
+   null-free data the result is the running extreme.  (Before /repo's fix of ScalarFuncs.max / min a leading NaN was dropped and
+   a NaT never stuck to a running maximum.) *)
+Theorem C08_cumext_noskip_float temporal (want_max : bool) gk (vals : list fl) ng mask :
+  length vals = length gk -> wf_mask (length gk) mask -> (forall k, In k gk -> k < Z.of_nat ng) ->
+  cumulative_t fops temporal (if want_max then CMax else CMin) false gk vals ng mask = cumext_noskip_spec fops want_max gk vals mask.
+Proof. exact (cumext_noskip_is_spec fops fops_null_unique temporal want_max gk vals ng mask). Qed.
+Theorem C08_cumext_noskip_int temporal nullable nullv (want_max : bool) gk (vals : list Z) ng mask :
+  length vals = length gk -> wf_mask (length gk) mask -> (forall k, In k gk -> k < Z.of_nat ng) ->
+  cumulative_t (zops nullable nullv) temporal (if want_max then CMax else CMin) false gk vals ng mask
+  = cumext_noskip_spec (zops nullable nullv) want_max gk vals mask.
+Proof. exact (cumext_noskip_is_spec _ (zops_null_unique nullable nullv) temporal want_max gk vals ng mask). Qed.
+Print Assumptions C08_cumext_noskip_float.
+Print Assumptions C08_cumext_noskip_int.
+Example C08_cumext_noskip_example :
+  cumulative_t (zops true MIN_INT) true CMax false [0; 0; 0] [5; MIN_INT; 7] 1 None = [5; MIN_INT; MIN_INT] /\
+  cumulative_t (zops true MIN_INT) true CMax false [0; 1; 0; 1] [MIN_INT; 3; 7; 9] 2 None = [MIN_INT; 3; MIN_INT; 9] /\
+  cumext_noskip_spec (zops true MIN_INT) true [0; 1; 0; 1] [MIN_INT; 3; 7; 9] None = [MIN_INT; 3; MIN_INT; 9].
+Proof. vm_compute. repeat split. Qed.
